@@ -2737,6 +2737,11 @@ impl SctpInner {
         trace!("Received SCTP Heartbeat, sending ACK");
 
         let tag = self.remote_verification_tag.load(Ordering::SeqCst);
+        if tag == 0 {
+            // The peer's verification tag is not known yet (its INIT ACK has not
+            // arrived): there is no valid tag to answer with.
+            return Ok(());
+        }
         self.send_chunk(CT_HEARTBEAT_ACK, 0, chunk, tag).await?;
         Ok(())
     }
